@@ -74,21 +74,22 @@ type wireInfo struct {
 }
 
 type connScn struct {
-	rng      *RNG
-	v        *VConn
-	rc       hrpc.RegionClient
-	q        int
-	calls    []*connCall
-	rowIdx   map[string]int
-	gidWire  map[int64]*wireInfo // frame being written by this goroutine
-	gidWho   map[int64]string
-	wires    map[uint32]*wireInfo
-	steps    []string
-	closedBy bool
-	regs     []hrpc.RegionInfo
-	broken   string
-	inQueue  int32 // QueueRPC calls that have not returned yet
-	profile  string
+	rng          *RNG
+	v            *VConn
+	rc           hrpc.RegionClient
+	q            int
+	calls        []*connCall
+	rowIdx       map[string]int
+	gidWire      map[int64]*wireInfo // frame being written by this goroutine
+	gidWho       map[int64]string
+	wires        map[uint32]*wireInfo
+	steps        []string
+	closedBy     bool
+	regs         []hrpc.RegionInfo
+	broken       string
+	misdelivered []string // call:hex(frame id) — completed by a response frame of another request
+	inQueue      int32    // QueueRPC calls that have not returned yet
+	profile      string
 }
 
 var discardLogger = slog.New(slog.NewTextHandler(io.Discard, nil))
@@ -333,6 +334,15 @@ func (u unsendableCall) ToProto() proto.Message {
 	return &pb.GetRequest{Region: &pb.RegionSpecifier{Type: pb.RegionSpecifier_REGION_NAME.Enum(), Value: []byte("r")}}
 }
 
+// batchedUnsendableCall is a batchable call whose action cannot be marshalled (its Get lacks the
+// required row): the MultiRequest that contains it fails to marshal as a whole.
+type batchedUnsendableCall struct{ *hrpc.Get }
+
+func (u batchedUnsendableCall) ToProto() proto.Message {
+	return &pb.GetRequest{Region: &pb.RegionSpecifier{Type: pb.RegionSpecifier_REGION_NAME.Enum(), Value: []byte("r")},
+		Get: &pb.Get{}}
+}
+
 // closingCall is a direct call during whose serialisation (ToProto runs after QueueRPC's liveness
 // check and before the call is registered) the connection is closed from outside.
 type closingCall struct {
@@ -451,6 +461,10 @@ func (s *connScn) run(nSteps, maxCalls int, profile string) {
 				if unsendable {
 					c.call = unsendableCall{c.call.(*hrpc.Get)}
 				}
+				bunsendable := !direct && s.rng.Intn(8) == 0
+				if bunsendable {
+					c.call = batchedUnsendableCall{c.call.(*hrpc.Get)}
+				}
 				closing := direct && !app && !unsendable && profile == "fail" && !s.closedBy && s.rng.Intn(9) == 0
 				if closing {
 					c.call = closingCall{c.call.(*hrpc.Get), s.rc}
@@ -478,6 +492,9 @@ func (s *connScn) run(nSteps, maxCalls int, profile string) {
 				}
 				if closing {
 					kind = "qc"
+				}
+				if bunsendable {
+					kind = "qbu"
 				}
 				if pre != "" {
 					s.steps = append(s.steps, strings.TrimSpace(pre))
@@ -597,9 +614,27 @@ func (s *connScn) run(nSteps, maxCalls int, profile string) {
 						k := kinds[s.rng.Intn(len(kinds))]
 						data, desc := s.buildFrame(w, k)
 						w.answered = true
+						before := make([]int, len(s.calls))
+						for i, c := range s.calls {
+							before[i] = len(c.results)
+						}
 						s.v.take(g)
 						g.ch <- gateRes{data: data}
 						s.log(fmt.Sprintf("rd:%d:%s", w.id, desc))
+						// whoever is completed by this frame (other than by the connection failing)
+						// must have been written in the request that carried its id
+						for i, c := range s.calls {
+							if i >= len(before) || len(c.results) == before[i] {
+								continue
+							}
+							mine := false
+							for _, ci := range w.calls {
+								mine = mine || ci == c.idx
+							}
+							if !mine && c.results[len(c.results)-1] != "connErr" {
+								s.misdelivered = append(s.misdelivered, fmt.Sprintf("%d:%x", c.idx, fmt.Sprintf("frame%d", w.id)))
+							}
+						}
 					}})
 				}
 				if profile != "corr" && profile != "write" {
@@ -832,6 +867,7 @@ func (s *connScn) line(model string) string {
 			foreign = append(foreign, fmt.Sprintf("%d:%x", c.idx, f))
 		}
 	}
+	foreign = append(foreign, s.misdelivered...)
 	j := func(x []string) string {
 		if len(x) == 0 {
 			return "none"
@@ -926,7 +962,21 @@ func connProp(model, profile string) propFn {
 func init() {
 	props["C03"] = connProp("c03", "fail")
 	props["C18"] = connProp("c18", "idle")
-	props["C02"] = connProp("c02", "corr")
+	c02conn := connProp("c02", "corr")
+	props["C02"] = func(tier string, seed uint64, out *Out) {
+		c02conn(tier, seed, out)
+		// free-running parallel senders (true parallelism; the gated scenarios run one goroutine at
+		// a time): the call ids on the connection must be unique, or responses cannot be correlated
+		if os.Getenv("VERIF_SHARD") == "" {
+			n := 12
+			if tier != "quick" {
+				n = 200
+			}
+			for i := 0; i < n; i++ {
+				out.Line("%s", strings.Replace(c05Stress(NewRNG(seed, fmt.Sprintf("c02s-%d", i)), i), "c05 ", "c02s ", 1))
+			}
+		}
+	}
 	// C05, concurrent senders on a connection that is not a *net.TCPConn: several goroutines send
 	// unbatched Gets and Appends (two Write units each) and batched calls at once; what reaches the
 	// connection must still be a sequence of whole frames. (The sequential part of C05 is in c05.go.)
